@@ -10,11 +10,11 @@
  *   new mt nz ne k1..kne | get t k fl | add t e fl zarg | rm t e | zlock t z | zunlock t z | elock t e | eunlock t e
  *   zenum t z stop nrm e.. | enum t stop nrm e.. | destroy t | createrc | bigcreate log2
  *   rand seed nops nthreads      threads choose calls themselves; rig lock around call + log line (order = real order)
- *   free seed nops nthreads      no rig lock: protocols under the zone locks, log lines ordered by tickets taken while
+ *   free seed nops nthreads [nshared]   (entries above nshared are private to one thread each) no rig lock: protocols under the zone locks, log lines ordered by tickets taken while
  *                                the zone mutex is held; ends with a quiesce line (full state)
  *   tight nthreads iters         add/remove of a private entry in a private zone, no log, then quiesce
  * data cache (main thread):
- *   dnew iv nb now | dadd k fail | dget k | dget0 | dfree i | dset i vu upd inc | dclean | dtick dt | denum stop
+ *   dnew iv nb now [maxslot] | dadd k fail | dget k | dget0 | dfree i | dset i vu upd inc | dclean | dtick dt | denum stop
  *   denumrm i | ddestroy | daddnull | drand seed nops
  */
 #ifndef _GNU_SOURCE
@@ -30,9 +30,9 @@
 #include <sched.h>
 #include <unistd.h>
 #include <time.h>
+#include "vh_util.h"
 #include "utils/hash_bucket.h"
 #include "utils/data_cache.c"
-#include "vh_util.h"
 
 #define MAXE 64
 #define MAXZ 64
@@ -46,7 +46,9 @@ static int keyof[MAXE + 1];
 static xent_t *ents[MAXE + 1];
 static volatile int z_owner[MAXZ], z_depth[MAXZ];
 static volatile long n_eperm;
-static __thread int cur_tid;
+static volatile long f_ticket;
+static __thread long tl_ticket;      /* free mode: ticket taken when the current thread last acquired a zone mutex */
+static __thread int cur_tid, tl_lk, tl_ul;     /* tl_*: zone mutex lock / unlock calls made by the current API call */
 
 int __real_pthread_mutex_lock(pthread_mutex_t *m);
 int __real_pthread_mutex_unlock(pthread_mutex_t *m);
@@ -58,15 +60,29 @@ static int zone_of_mutex(pthread_mutex_t *m) {
 	size_t i = (size_t)(a - lo) / sizeof(hbucket_zone_t);
 	return (a == (char*)&hb->zones[i].mtx && i < MAXZ) ? (int)i : -1;
 }
+static volatile int serial_mode = 1;     /* calls are serialised and chosen so that none can block on a zone mutex */
 int __wrap_pthread_mutex_lock(pthread_mutex_t *m) {
-	int rc = __real_pthread_mutex_lock(m);
-	int z = zone_of_mutex(m);
-	if (z >= 0 && rc == 0) { z_owner[z] = cur_tid; z_depth[z]++; }
+	int z = zone_of_mutex(m), rc;
+	if (z >= 0 && serial_mode) {
+		rc = pthread_mutex_trylock(m);
+		if (rc == EBUSY) {     /* the specification says this call does not block: a mutex was leaked */
+			char msg[200];
+			int n = snprintf(msg, sizeof(msg), "\nFAULT sig=97 blocked-on-zone-mutex zone=%d owner=%d(depth %d) thread=%d case=%s\n",
+			    z, z_owner[z], z_depth[z], cur_tid, vh_case_tag);
+			if (n > 0) (void)!write(1, msg, (size_t)n);
+			_exit(97);
+		}
+	} else {
+		rc = __real_pthread_mutex_lock(m);
+		if (z >= 0 && rc == 0) tl_ticket = __atomic_add_fetch(&f_ticket, 1, __ATOMIC_SEQ_CST);
+	}
+	if (z >= 0 && rc == 0) { z_owner[z] = cur_tid; z_depth[z]++; tl_lk++; }
 	return rc;
 }
 int __wrap_pthread_mutex_unlock(pthread_mutex_t *m) {
 	int z = zone_of_mutex(m);
 	if (z >= 0) {
+		tl_ul++;
 		if (z_owner[z] == cur_tid && z_depth[z] > 0) { if (--z_depth[z] == 0) z_owner[z] = 0; }
 		else __atomic_add_fetch(&n_eperm, 1, __ATOMIC_RELAXED);
 	}
@@ -171,7 +187,7 @@ static void hb_drop(void) {
 }
 
 /* one hash bucket call on behalf of thread cur_tid; appends the event (without state) to b. returns 0 if unknown */
-static int hb_exec(const char *line, sb_t *b) {
+static int hb_exec0(const char *line, sb_t *b) {
 	char op[32]; int n = 0, t = 0;
 	if (sscanf(line, "%31s%n", op, &n) != 1) return 0;
 	const char *a = line + n;
@@ -184,6 +200,7 @@ static int hb_exec(const char *line, sb_t *b) {
 			HB = NULL;
 		}
 		hb_drop();
+		tl_lk = tl_ul = 0;             /* mutex calls of the clean-up above are not part of this call */
 		sscanf(a, "%d %d %d%n", &mt, &nz, &ne, &off); a += off;
 		if (ne > MAXE || nz > MAXZ) abort();
 		sb_put(b, "{\"op\":\"new\",\"mt\":%d,\"nz\":%d,\"keys\":[", mt, nz);
@@ -194,6 +211,7 @@ static int hb_exec(const char *line, sb_t *b) {
 		sb_put(b, "],\"rc\":%d", rc);
 		return 1;
 	}
+	if (HB == NULL) { sb_put(b, "{\"op\":\"skipped\""); return 1; }     /* rest of a behaviour whose process died */
 	if (!strcmp(op, "get")) {
 		int k, fl; hbucket_zone_p zr = NULL; hbucket_entry_p er = (hbucket_entry_p)(uintptr_t)0x1;
 		sscanf(a, "%d %d %d", &t, &k, &fl);
@@ -263,6 +281,13 @@ static int hb_exec(const char *line, sb_t *b) {
 		return 1;
 	}
 	return 0;
+}
+
+static int hb_exec(const char *line, sb_t *b) {
+	tl_lk = tl_ul = 0;
+	int ok = hb_exec0(line, b);
+	if (ok) sb_put(b, ",\"lk\":%d,\"ul\":%d", tl_lk, tl_ul);
+	return ok;
 }
 
 /* ---- worker threads for commands that name their thread */
@@ -359,7 +384,7 @@ static int rand_cmd(rng_t *r, int t, char *cmd, size_t cap) {
 		return 1;
 	}
 }
-typedef struct { int t; uint64_t seed; } rarg_t;
+typedef struct { int t, nt; uint64_t seed; } rarg_t;
 static void *rand_main(void *arg) {
 	rarg_t *ra = arg; rng_t r = { ra->seed * 2654435761ULL + (uint64_t)ra->t * 97 };
 	char cmd[512];
@@ -390,18 +415,27 @@ static void *rand_main(void *arg) {
 typedef struct { long ticket; char *line; } flog_t;
 typedef struct { flog_t *v; size_t n, cap; } flogs_t;
 static flogs_t FL[MAXT + 1];
-static volatile long f_ticket;
 static volatile int id_inuse[MAXE + 1];
-static void flog(int t, const char *fmt, ...) {
-	flogs_t *l = &FL[t]; char buf[1024]; va_list ap;
-	va_start(ap, fmt); vsnprintf(buf, sizeof(buf), fmt, ap); va_end(ap);
+static int f_nshared;
+static void flog_put(int t, long ticket, const char *buf) {
+	flogs_t *l = &FL[t];
 	if (l->n == l->cap) { l->cap = l->cap ? l->cap * 2 : 1024; l->v = realloc(l->v, l->cap * sizeof(flog_t)); if (!l->v) abort(); }
-	l->v[l->n].ticket = __atomic_add_fetch(&f_ticket, 1, __ATOMIC_SEQ_CST);
+	l->v[l->n].ticket = ticket;
 	l->v[l->n].line = strdup(buf); l->n++;
+}
+static void flog(int t, const char *fmt, ...) {       /* called while the zone mutex is held */
+	char buf[1024]; va_list ap;
+	va_start(ap, fmt); vsnprintf(buf, sizeof(buf), fmt, ap); va_end(ap);
+	flog_put(t, __atomic_add_fetch(&f_ticket, 1, __ATOMIC_SEQ_CST), buf);
+}
+static void flog_at(int t, long ticket, const char *fmt, ...) {   /* ticket taken inside the call, when it got the mutex */
+	char buf[1024]; va_list ap;
+	va_start(ap, fmt); vsnprintf(buf, sizeof(buf), fmt, ap); va_end(ap);
+	flog_put(t, ticket, buf);
 }
 static void free_release(int id) { __atomic_store_n(&id_inuse[id], 0, __ATOMIC_RELEASE); }
 static int claim_id(int key) {
-	for (int e = 1; e <= H_NE; e++) {
+	for (int e = 1; e <= f_nshared; e++) {
 		int zero = 0;
 		if (keyof[e] == key && __atomic_compare_exchange_n(&id_inuse[e], &zero, 1, 0, __ATOMIC_ACQ_REL, __ATOMIC_RELAXED)) return e;
 	}
@@ -413,8 +447,26 @@ static void *free_main(void *arg) {
 	cur_tid = t;
 	while (__atomic_add_fetch(&f_done, 1, __ATOMIC_RELAXED) <= f_target) {
 		uint32_t c = rnd(&r) % 100;
-		int k = keyof[1 + (int)(rnd(&r) % (uint32_t)H_NE)];
-		if (c < 85) {           /* uadd / del / look all start with get(F_LOCK): the zone is locked on return */
+		int k = keyof[1 + (int)(rnd(&r) % (uint32_t)f_nshared)];
+		if (c >= 70 && c < 85) {
+			/* private entry of this thread (nobody else asks for its key, no callback removes it): add(0) / remove()
+			 * take the zone mutex themselves, the zone is shared with everything else */
+			int np = 0, mine[MAXE], id;
+			for (int e = f_nshared + 1; e <= H_NE; e++) if (1 + (e - f_nshared - 1) % ra->nt == t) mine[np++] = e;
+			if (np == 0) continue;
+			id = mine[rnd(&r) % (uint32_t)np];
+			if (ents[id] == NULL) {
+				xent_t *x = ent_fresh(id); int kk = keyof[id];
+				ents[id] = x;
+				if (hbucket_entry_add(HB, 0, NULL, (const uint8_t*)&kk, sizeof(kk), &x->entry) != 0) abort();
+				flog_at(t, tl_ticket, "{\"op\":\"add\",\"t\":%d,\"e\":%d,\"fl\":0,\"zarg\":-1,\"rc\":0}", t, id);
+			} else {
+				xent_t *x = ents[id];
+				hbucket_entry_remove(&x->entry);
+				flog_at(t, tl_ticket, "{\"op\":\"rm\",\"t\":%d,\"e\":%d}", t, id);
+				ents[id] = NULL; free(x);
+			}
+		} else if (c < 85) {    /* uadd / del / look all start with get(F_LOCK): the zone is locked on return */
 			hbucket_zone_p zone = NULL; hbucket_entry_p en = NULL;
 			int rc = hbucket_entry_get(HB, HBUCKET_GET_F_F_LOCK, (const uint8_t*)&k, sizeof(k), &zone, &en);
 			int z = (int)(zone - HB->zones), e = en ? ((xent_t*)en->data)->id : 0;
@@ -451,7 +503,7 @@ static void *free_main(void *arg) {
 			hbucket_zone_lock(&HB->zones[z]);
 			flog(t, "{\"op\":\"zlock\",\"t\":%d,\"z\":%d}", t, z);
 			sb_put(&b, "{\"op\":\"zenum\",\"t\":%d,\"z\":%d,\"stop\":0,\"rm\":[", t, z);
-			for (int e = 1; e <= H_NE; e++) if (rnd(&r) % 3 == 0) { c2.rm[e] = 1; sb_put(&b, "%s%d", nrm++ ? "," : "", e); }
+			for (int e = 1; e <= f_nshared; e++) if (rnd(&r) % 3 == 0) { c2.rm[e] = 1; sb_put(&b, "%s%d", nrm++ ? "," : "", e); }
 			ret = hbucket_zone_entry_enum(&HB->zones[z], enum_cb, &c2);
 			sb_put(&b, "],\"ret\":%d,", ret); put_vis(&b, &c2);
 			sb_put(&b, ",\"zcz\":%lld}", (long long)(ssize_t)hbucket_zone_get_entries_count(&HB->zones[z]));
@@ -472,11 +524,13 @@ static void quiesce_line(void) {
 }
 static void run_threads(void *(*fn)(void*), int nt, uint64_t seed) {
 	pthread_t th[MAXT + 1]; rarg_t ra[MAXT + 1];
-	for (int t = 1; t <= nt; t++) { ra[t].t = t; ra[t].seed = seed; pthread_create(&th[t], NULL, fn, &ra[t]); }
+	for (int t = 1; t <= nt; t++) { ra[t].t = t; ra[t].nt = nt; ra[t].seed = seed; pthread_create(&th[t], NULL, fn, &ra[t]); }
 	for (int t = 1; t <= nt; t++) pthread_join(th[t], NULL);
 }
-static void free_mode(uint64_t seed, long nops, int nt) {
+static void free_mode(uint64_t seed, long nops, int nt, int nshared) {
+	f_nshared = (nshared >= 1 && nshared <= H_NE) ? nshared : H_NE;
 	memset((void*)id_inuse, 0, sizeof(id_inuse));
+	serial_mode = 0;
 	for (int e = 1; e <= H_NE; e++) { free(ents[e]); ents[e] = NULL; }      /* entries are made when they are added */
 	f_done = 0; f_target = nops; f_ticket = 0;
 	run_threads(free_main, nt, seed);
@@ -488,6 +542,7 @@ static void free_mode(uint64_t seed, long nops, int nt) {
 	for (size_t i = 0; i < tot; i++) { puts(all[i].line); free(all[i].line); }
 	free(all);
 	for (int e = 1; e <= H_NE; e++) if (ents[e] == NULL) ents[e] = ent_fresh(e);   /* state dump reads entry->zone */
+	serial_mode = 1;
 	quiesce_line();
 }
 static long t_iters;
@@ -508,14 +563,14 @@ static data_cache_p DC;
 static int D_NB;
 static time_t d_now;
 static ddata_t *d_live[DMAX + 1];          /* data objects handed out by alloc and not yet freed */
-static int d_fail_next, d_freed[4 * DMAX], d_nfreed, d_badfree;
+static int d_fail_next, d_freed[4 * DMAX], d_nfreed, d_badfree, d_maxslot = DMAX;
 time_t __wrap_time(time_t *p) { if (p) *p = d_now; return d_now; }
 static uint32_t d_bucket(int k) { int b = k % D_NB; return (b == D_NB - 1) ? 255u : (uint32_t)(b * (256 / D_NB)); }
 static uint32_t d_hash(const uint8_t *key, size_t key_size) { int k; (void)key_size; memcpy(&k, key, sizeof(k)); return d_bucket(k); }
 static void *d_alloc(const uint8_t *key, size_t key_size) {
 	(void)key_size;
 	if (d_fail_next) { d_fail_next = 0; return NULL; }
-	for (int s = 1; s <= DMAX; s++) if (d_live[s] == NULL) {
+	for (int s = 1; s <= d_maxslot; s++) if (d_live[s] == NULL) {
 		ddata_t *d = malloc(sizeof(*d));
 		d->slot = s; memcpy(&d->key, key, sizeof(int)); d_live[s] = d;
 		return d;
@@ -587,8 +642,9 @@ static int dc_exec(const char *line, sb_t *b) {
 	const char *a = line + n;
 	d_nfreed = 0;
 	if (!strcmp(op, "dnew")) {
-		int iv, nb; long long now;
-		sscanf(a, "%d %d %lld", &iv, &nb, &now);
+		int iv, nb, maxslot = DMAX; long long now;
+		sscanf(a, "%d %d %lld %d", &iv, &nb, &now, &maxslot);     /* maxslot: alloc_data_fn fails when that many are out */
+		d_maxslot = (maxslot >= 1 && maxslot <= DMAX) ? maxslot : DMAX;
 		if (DC) { data_cache_destroy(DC); DC = NULL; }
 		for (int s = 1; s <= DMAX; s++) { free(d_live[s]); d_live[s] = NULL; }
 		d_badfree = 0; d_nfreed = 0; D_NB = nb; d_now = (time_t)now;
@@ -596,6 +652,7 @@ static int dc_exec(const char *line, sb_t *b) {
 		sb_put(b, "{\"op\":\"dnew\",\"iv\":%d,\"nb\":%d,\"now\":%lld,\"rc\":%d", iv, nb, now, rc);
 		return 1;
 	}
+	if (DC == NULL && strcmp(op, "daddnull")) { sb_put(b, "{\"op\":\"skipped\",\"freed\":[]"); return 1; }
 	if (!strcmp(op, "dadd")) {
 		int k, fail; data_cache_item_p it = (data_cache_item_p)(uintptr_t)0x1;
 		sscanf(a, "%d %d", &k, &fail);
@@ -692,7 +749,7 @@ int main(void) {
 		line[strcspn(line, "\r\n")] = 0;
 		if (sscanf(line, "%31s%n", op, &n) != 1) continue;
 		vh_set_tag(line);
-		alarm(120);
+		alarm((!strcmp(op, "rand") || !strcmp(op, "free") || !strcmp(op, "tight") || !strcmp(op, "drand")) ? 240 : 10);
 		if (!strcmp(op, "createrc")) {
 			static const uint32_t sizes[] = { 0, 1, 2, 3, 4, 5, 6, 7, 8, 12, 16, 24, 256, 257, 1000, 1024, 4096 };
 			printf("{\"op\":\"createrc\",\"rows\":[");
@@ -717,12 +774,14 @@ int main(void) {
 			r_done = 0; r_target = nops;
 			run_threads(rand_main, nt, (uint64_t)seed);
 		} else if (!strcmp(op, "free")) {
-			long long seed; long nops; int nt;
-			sscanf(line + n, "%lld %ld %d", &seed, &nops, &nt);
-			free_mode((uint64_t)seed, nops, nt);
+			long long seed; long nops; int nt, nshared = 0;
+			sscanf(line + n, "%lld %ld %d %d", &seed, &nops, &nt, &nshared);
+			free_mode((uint64_t)seed, nops, nt, nshared);
 		} else if (!strcmp(op, "tight")) {
 			int nt; sscanf(line + n, "%d %ld", &nt, &t_iters);
+			serial_mode = 0;
 			run_threads(tight_main, nt, 0);
+			serial_mode = 1;
 			quiesce_line();
 		} else if (!strcmp(op, "drand")) {
 			long long seed; long nops; int nk;
